@@ -60,7 +60,8 @@ type c14Var struct {
 //	for-self    SUBJECT= value, but inside .for c14i in ${C14LIST} ... .endfor (the list may be empty)
 //	guarded     the whole fragment is wrapped in .if !defined(C14_GUARD_MK) ... .endif and assigns SUBJECT inside:
 //	            a multiple-inclusion guard (Indentation level with guard = true) when nothing precedes it
-var c14Contexts = []string{"", "self=", "self?=", "self+=", "sibling", "unrelated", "nested", "cond-self", "for-self", "guarded"}
+//	undef-self  SUBJECT= value, then .undef SUBJECT
+var c14Contexts = []string{"", "self=", "self?=", "self+=", "sibling", "unrelated", "nested", "cond-self", "for-self", "guarded", "undef-self"}
 
 // MkLines.checkAllData.vars.IsDefined(varname): the exact name was assigned on an
 // earlier line of the file (any operator) outside of .if and .for blocks
@@ -346,6 +347,8 @@ func (s c14Spec) context(cond string) (pre []string, line string, post []string)
 		pre = []string{".if defined(C14OTHER)", v.Name + "=\t" + val, ".endif"}
 	case "for-self":
 		pre = []string{".for c14i in ${C14LIST}", v.Name + "=\t" + val, ".endfor"}
+	case "undef-self":
+		pre = []string{v.Name + "=\t" + val, ".undef " + v.Name}
 	case "guarded":
 		pre = []string{".if !defined(C14_GUARD_MK)", "C14_GUARD_MK=\t# defined", v.Name + "=\t" + val}
 		line, post = ".  if "+cond, []string{".  endif", ".endif"}
@@ -392,6 +395,7 @@ var (
 	c14ReAssign  = regexp.MustCompile(`^([A-Za-z_][-+.\w]*?)[ \t]*(?:[?+:!])?=`)
 	c14ReOpen    = regexp.MustCompile(`^\.[ \t]*(?:if|ifdef|ifndef|ifmake|ifnmake|for)\b`)
 	c14ReClose   = regexp.MustCompile(`^\.[ \t]*(?:endif|endfor)\b`)
+	c14ReUndef   = regexp.MustCompile(`^\.[ \t]*undef[ \t]+([^ \t]+)[ \t]*$`)
 )
 
 // one generated line as Spec/PrefsFile.v's fline (none of the generated fragments has a multiple-inclusion guard)
@@ -404,6 +408,9 @@ func c14Fline(line string) string {
 	}
 	if c14ReClose.MatchString(line) {
 		return "C"
+	}
+	if m := c14ReUndef.FindStringSubmatch(line); m != nil {
+		return "U" + hx(m[1])
 	}
 	if m := c14ReAssign.FindStringSubmatch(line); m != nil {
 		return "A" + hx(m[1])
@@ -665,10 +672,10 @@ type c14Case struct {
 	condInc   bool              // ... or by an include that may or may not happen
 	hasModel  bool
 	model     struct {
-		seenPrefs, specPrefs, specCondInc bool
-		newLine                           string
-		offered                           int
-		applied                           []c14Fix
+		seenPrefs, specPrefs, specCondInc, specUndef bool
+		newLine                                      string
+		offered                                      int
+		applied                                      []c14Fix
 	}
 }
 
@@ -800,12 +807,12 @@ func (st *c14State) runCases(cases []*c14Case) {
 	}
 	for i, c := range cases {
 		f := strings.Fields(ans[i])
-		if len(f) < 6 || strings.HasPrefix(ans[i], "ERR") || strings.HasPrefix(ans[i], "EXC") {
+		if len(f) < 7 || strings.HasPrefix(ans[i], "ERR") || strings.HasPrefix(ans[i], "EXC") {
 			res.Broken = "oracle f answer " + q(ans[i]) + " for " + q(c.line)
 			return
 		}
-		c.model.seenPrefs, c.model.specPrefs, c.model.specCondInc = f[0] == "1", f[1] == "1", f[2] == "1"
-		f = f[3:]
+		c.model.seenPrefs, c.model.specPrefs, c.model.specCondInc, c.model.specUndef = f[0] == "1", f[1] == "1", f[2] == "1", f[3] == "1"
+		f = f[4:]
 		c.hasModel = true
 		c.model.newLine = unhx(f[0])
 		fmt.Sscan(f[1], &c.model.offered)
@@ -827,6 +834,14 @@ func (st *c14State) runCases(cases []*c14Case) {
 	for _, c := range cases {
 		res.TracesValidated++
 		// the harness' own reading of the lines before the condition against the Coq spec's (Spec/PrefsFile.v sure_after)
+		if (c.v.Ctx == "undef-self") != c.model.specUndef {
+			res.AddViolation(Violation{Key: "C14/correspondence/ground-truth-prefs",
+				What:       fmt.Sprintf("after the lines %q the harness takes %s as touched by .undef = %v, Spec/PrefsFile.v says %v", c.before(), c.v.Name, c.v.Ctx == "undef-self", c.model.specUndef),
+				FoundInput: false, Size: len(c.line), Replay: c.replayBroken(nil, "harness ground truth = Spec.PrefsFile.sure_after su_undef")})
+		}
+		if c.v.Ctx == "undef-self" {
+			res.Count("undef_after_assignment_cases", 1)
+		}
 		if c.spec.realGuard() {
 			res.Count("guarded_fragment_cases", 1)
 			if c.newLine != c.line && !strings.Contains(c.newLine, ":U") {
@@ -942,6 +957,10 @@ func (st *c14State) cause(c *c14Case, kind, from string, v *string, n byte) stri
 	if v == nil && n == 'M' && c.condInc && !c.prefsSure && kind != "and" {
 		// Tools.SeenPrefs is set by an include inside a conditional block, which may or may not happen
 		return kind + "/undefined/conditional-include"
+	}
+	if v == nil && n == 'M' && c.v.Ctx == "undef-self" && kind != "and" {
+		// vars.IsDefined still knows a variable that an .undef has removed
+		return kind + "/undefined/undef-after-assignment"
 	}
 	if v == nil && n == 'M' && (c.v.Ctx == "cond-self" || c.v.Ctx == "for-self") && c.spec.Inc == "" && kind != "and" {
 		// isDefined takes an assignment inside a conditional block as a guarantee
@@ -1544,6 +1563,8 @@ func c14CoqFline(tok string) string {
 		return "FOpen true"
 	case tok[0] == 'I':
 		return "FInclude " + c09CoqStr(unhx(tok[1:]))
+	case tok[0] == 'U':
+		return "FUndef " + c09CoqStr(unhx(tok[1:]))
 	}
 	return "FAssign " + c09CoqStr(unhx(tok[1:]))
 }
@@ -1582,7 +1603,7 @@ func (st *c14State) crossFileCases(sb *strings.Builder) int {
 			i, c09CoqStr(c.v.Name), strings.Join(vi, " "))
 		fmt.Fprintf(sb, "Definition f_mmn_%d : str -> mmn := fun p => %s.\n", i, mm)
 		fmt.Fprintf(sb, "Definition f_line_%d : str := %s.\nDefinition f_tree_%d : mkcond := %s.\n", i, c09CoqStr(c.line), i, c.tree.coq())
-		fmt.Fprintf(sb, "Example fcase_%d : (fs_seen_prefs (scan (init_state false) f_pre_%d), su_prefs (sure_after f_pre_%d), conditional_prefs_include (mksure false [] []) f_pre_%d,\n"+
+		fmt.Fprintf(sb, "Example fcase_%d : (fs_seen_prefs (scan (init_state false) f_pre_%d), su_prefs (sure_after f_pre_%d), conditional_prefs_include (mksure false [] [] []) f_pre_%d,\n"+
 			"  let (nl, applied) := check_file_line f_decl_%d f_mmn_%d false f_pre_%d f_line_%d f_tree_%d in (nl, map (fun rw => (rw_kind rw, rw_from rw, rw_to rw)) applied))\n"+
 			"  = (%s, %s, %s, (%s, [%s])).\nProof. vm_compute. reflexivity. Qed.\n",
 			i, i, i, i, i, i, i, i, i, c14CoqBool(c.model.seenPrefs), c14CoqBool(c.model.specPrefs), c14CoqBool(c.model.specCondInc), c09CoqStr(c.model.newLine), strings.Join(fixes, "; "))
@@ -2338,7 +2359,7 @@ func runC14(ctx *Ctx) *Result {
 			{"nested_pattern_cases", 2000}, {"nested_preserved", 500},
 			// what feeds isDefined: includes of prefs files and near misses, before / conditionally before / after the condition
 			{"include_context_cases", 3000}, {"include_before_loads", 400}, {"include_before_nearmiss", 400}, {"include_cond_loads", 400}, {"include_after_loads", 400},
-			{"seenprefs_no", 2000}, {"seenprefs_and_really_loaded", 2000}, {"loadsprefs_true", 300}, {"loadsprefs_false", 5000}, {"hacks_mk_cases", 100}, {"guarded_fragment_cases", 200}, {"guarded_fragment_rewritten_without_U", 50},
+			{"seenprefs_no", 2000}, {"seenprefs_and_really_loaded", 2000}, {"loadsprefs_true", 300}, {"loadsprefs_false", 5000}, {"hacks_mk_cases", 100}, {"guarded_fragment_cases", 200}, {"guarded_fragment_rewritten_without_U", 50}, {"undef_after_assignment_cases", 200},
 			{"wholerun_include_rewritten", 60}, {"wholerun_include_rewritten_with_U", 20}, {"wholerun_include_rewritten_without_U", 5}, {"wholerun_hacks_rewritten_without_U", 2},
 			{"vm_compute_cross_checked_model_runs", 20}} {
 			n, _ := res.Distribution[fl.key].(int)
